@@ -61,10 +61,17 @@ class BlImm11Relocation(Relocation):
         imm11 = imm32 & 0x7FF
         imm10 = (imm32 >> 11) & 0x3FF
         s = (imm32 >> 24) & 0x1
+        # Encoding T1 of BL: I1 = NOT(J1 XOR S), I2 = NOT(J2 XOR S)
+        i1 = (imm32 >> 22) & 0x1
+        i2 = (imm32 >> 21) & 0x1
+        j1 = (i1 ^ s) ^ 1
+        j2 = (i2 ^ s) ^ 1
         bv = BitView(data, 0, 4)
         bv[0:10] = imm10
         bv[10:11] = s
         bv[16:27] = imm11
+        bv[27:28] = j2
+        bv[29:30] = j1
         return data
 
 
